@@ -103,6 +103,110 @@ fn check_size(c: &SizeProg) -> Verdict {
     }
 }
 
+// ---- encoding table ---------------------------------------------------------
+
+/// `EncodingBuilder` with independent CKey / EKey page sizes and enough entries for several pages.
+#[derive(Debug, Clone, Serialize, Deserialize)]
+struct EncodingProg {
+    ckeys: u16,
+    ekeys: u16,
+    ckey_page_kb: u8,
+    ekey_page_kb: u8,
+    /// content keys carry 1..=3 encoding keys instead of one
+    multi: bool,
+    content_seed: u64,
+}
+
+fn check_encoding(c: &EncodingProg) -> Verdict {
+    use cascette_crypto::{ContentKey, EncodingKey};
+    use cascette_formats::encoding::{CKeyEntryData, EKeyEntryData, EncodingBuilder};
+    let mut r = Rng::new(c.content_seed);
+    let mut b = EncodingBuilder::new().with_page_sizes(u16::from(c.ckey_page_kb), u16::from(c.ekey_page_kb));
+    let specs = ["z", "n", "b:{164=z,16K*565=z,1656=z}", "z:{9,mpq}"];
+    for _ in 0..c.ckeys {
+        let n = if c.multi { 1 + r.below(3) as usize } else { 1 };
+        let mut key = k16(&mut r);
+        key[0] |= 1; // never the all-zero padding pattern
+        b.add_ckey_entry(CKeyEntryData { content_key: ContentKey::from_bytes(key), file_size: r.below(1 << 32), encoding_keys: (0..n).map(|_| EncodingKey::from_bytes(k16(&mut r))).collect() });
+    }
+    for _ in 0..c.ekeys {
+        let mut key = k16(&mut r);
+        key[0] |= 1;
+        b.add_ekey_entry(EKeyEntryData { encoding_key: EncodingKey::from_bytes(key), espec: specs[r.below(specs.len() as u64) as usize].to_string(), file_size: r.below(1 << 32) });
+    }
+    // entries per page with one encoding key: (page - 0) / 38 content keys, page / 25 encoding keys
+    let c_pages = usize::from(c.ckeys).div_ceil(((usize::from(c.ckey_page_kb) * 1024) / 38).max(1));
+    let e_pages = usize::from(c.ekeys).div_ceil(((usize::from(c.ekey_page_kb) * 1024) / 25).max(1));
+    if c.ckeys == 0 || c.ekeys == 0 {
+        // the format has no representation for a table without CKey pages or without EKey pages
+        // (same exclusion as in C03's encoding section)
+        return Verdict::pass().class("excluded-empty-table");
+    }
+    match b.build() {
+        Ok(f) => roundtrip("encoding", &f)
+            .nontrivial(c.ckeys >= 2 && c.ekeys >= 2)
+            .class_if(c.ckey_page_kb != c.ekey_page_kb, "ckey-and-ekey-page-sizes-differ")
+            .class_if(c_pages >= 3, ">=3-ckey-pages")
+            .class_if(e_pages >= 3, ">=3-ekey-pages"),
+        Err(_) => Verdict::pass().class("builder-refused"),
+    }
+}
+
+// ---- TVFS: container table fields at their wide widths ------------------------
+
+/// A TVFS manifest whose container file table is large enough for 2- and 3-byte offset fields,
+/// with PATCH_SUPPORT: `TvfsBuilder` always stores patch offset 0, so the parsed value gets
+/// non-zero patch offsets (as a real manifest has) before it is serialised again.
+#[derive(Debug, Clone, Serialize, Deserialize)]
+struct TvfsWideProg {
+    files: u16,
+    flags: u8,
+    content_seed: u64,
+}
+
+fn check_tvfs_wide(c: &TvfsWideProg) -> Verdict {
+    use cascette_formats::tvfs::{TvfsBuilder, TvfsFile};
+    let mut r = Rng::new(c.content_seed);
+    let flags = u32::from(c.flags & 0x05) | 0x04;
+    let mut b = TvfsBuilder::with_flags(flags);
+    for i in 0..c.files {
+        let mut ek = [0u8; 9];
+        ek.copy_from_slice(&r.bytes(9));
+        let ck = if flags & 1 != 0 { Some(k16(&mut r)) } else { None };
+        b.add_file(format!("d{}/f{i}", i % 7), ek, r.below(1 << 24) as u32, r.below(1 << 24) as u32, ck);
+    }
+    let bytes = match b.build() {
+        Ok(x) => x,
+        Err(_) => return Verdict::pass().class("builder-refused"),
+    };
+    let mut f = match TvfsFile::parse(&bytes) {
+        Ok(f) => f,
+        // the builder's own defects at the width thresholds are C03's (listed there)
+        Err(_) => return Verdict::pass().class("builder-output-not-parsed(C03)"),
+    };
+    let width = f.header.cft_offs_size();
+    let table_len = f.container_table.data.len() as u64;
+    let mut set = 0usize;
+    for e in &mut f.container_table.entries {
+        if e.patch_offset.is_some() {
+            // an offset of another entry of the table: any value below the table size
+            let v = match r.below(4) {
+                0 => table_len.saturating_sub(1),
+                1 => 1,
+                _ => r.below(table_len.max(1)),
+            };
+            e.patch_offset = Some(v as u32);
+            set += 1;
+        }
+    }
+    roundtrip("tvfs", &f)
+        .nontrivial(set >= 2)
+        .class_if(width == 1, "cft-offset-width:1")
+        .class_if(width == 2, "cft-offset-width:2")
+        .class_if(width == 3, "cft-offset-width:3")
+        .class_if(width == 4, "cft-offset-width:4")
+}
+
 // ---- patch archive / patch index -------------------------------------------
 
 #[derive(Debug, Clone, Serialize, Deserialize)]
@@ -482,7 +586,7 @@ fn main() {
             .into(),
     );
     ck.assume("logical projections in harness/c02/src/project.rs capture entries, keys, sizes, flags, tags (not raw page buffers, not derived hashes)");
-    ck.assume("builder programs of BLTE, encoding, archive index/group, root, install, download, TVFS are checked against models by C01/C03/C19");
+    ck.assume("builder programs of BLTE, archive index/group, root, install, download, TVFS are checked against models by C01/C03/C19; here the encoding builder (page packing, independent page sizes) and TVFS values with wide container-table fields go through the plain round trip");
 
     let cfg = DriverCfg { fixpoint: true, targets: CASC_TARGETS.to_vec(), mutations_per_target: std::env::var("VH_C02_MUTATIONS").ok().and_then(|v| v.parse().ok()).unwrap_or(tier.pick(2_000, 200_000)), sweep: true };
     run_iso(&mut ck, "iso-fixpoint", &cfg);
@@ -499,6 +603,39 @@ fn main() {
             check_size,
         )
         .shards(8),
+    );
+    ck.run(
+        Section::pbt(
+            "builder-encoding",
+            tier.pick(600, 40_000),
+            || {
+                let kb = || prop_oneof![3 => Just(4u8), 1 => Just(1u8), 1 => Just(2u8), 1 => Just(8u8)];
+                (prop_oneof![2 => 0u16..40, 3 => 100u16..800], prop_oneof![2 => 0u16..40, 3 => 100u16..1100], kb(), kb(), any::<bool>(), any::<u64>())
+                    .prop_map(|(ckeys, ekeys, ckey_page_kb, ekey_page_kb, multi, content_seed)| EncodingProg { ckeys, ekeys, ckey_page_kb, ekey_page_kb, multi, content_seed })
+                    .boxed()
+            },
+            check_encoding,
+        )
+        .shards(12),
+    );
+    ck.run(
+        Section::enumerate(
+            "tvfs-wide-offsets",
+            "TvfsBuilder output with PATCH_SUPPORT (with and without content keys) of 3 / 40 / 300 / 2,800 / 4,000 files — container tables below 256 bytes, below and above 64 KiB — whose parsed entries get non-zero patch offsets before the value is serialised again: parse(build(v)) has v's content, second build identical",
+            move || {
+                let mut v = Vec::new();
+                for files in [3u16, 40, 300, 2_800, 4_000] {
+                    for flags in [4u8, 5] {
+                        for k in 0..3u64 {
+                            v.push(TvfsWideProg { files, flags, content_seed: 0xC08 ^ u64::from(files) << 8 ^ u64::from(flags) ^ k << 32 });
+                        }
+                    }
+                }
+                Box::new(v.into_iter())
+            },
+            check_tvfs_wide,
+        )
+        .shards(10),
     );
     ck.run(
         Section::pbt(
